@@ -723,7 +723,7 @@ struct SolverEngine: Engine{
     p["alloc"]=al;
     p["cfg"]=gen_cfg(r,prop=="C05");
     Json sw=Json::array(); int mask=(int)r.below(32); if(prop=="C04"&&r.chance(0.7)) mask|=(1<<r.below(3)); if(prop=="C05"&&r.chance(0.5)) mask=0;
-    for(int i=0;i<5;i++) sw.push((mask>>i)&1); p["switches"]=sw; p["switch_order"]=(int)r.below(6);
+    for(int i=0;i<5;i++) sw.push((mask>>i)&1); p["switches"]=sw; p["switch_order"]=(int)r.below(6); p["switches_first"]=r.chance(0.3);
     Json ops=Json::array();
     double L=9.0;
     auto evolve=[&](double dt){ Json o=Json::object(); o["op"]="evolve"; o["dt"]=dt; ops.push(o); };
@@ -790,11 +790,13 @@ struct SolverEngine: Engine{
       Json defstep=Json::object(); R.read_stepper(defstep);
       R.configure(plan["cfg"],true);
       R.c.opi=-1; R.begin("construct","C15");
-      int rc=lib_call([&]{ R.live=new SimSolver(&R.c); R.live->ini(R.nx,R.nsun,R.nrhos,R.nsc,R.t_ini); });
+      // the term switches may be set before the object has any sizes (default construction, setters, then ini) or afterwards
+      bool sw_first=plan["switches_first"].as_bool(false);
+      int rc=lib_call([&]{ R.live=new SimSolver(&R.c); if(sw_first) R.apply_switches(R.live,(int)plan["switch_order"].as_int(0)); R.live->ini(R.nx,R.nsun,R.nrhos,R.nsc,R.t_ini); });
       R.c.live=R.live;
       if(rc!=CALL_OK){ R.c.violation("C15","exc:unexpected","ini","constructing the solver threw \""+g_what+"\""); }
       else if(R.setup_state(plan["cfg"])){
-        lib_call([&]{ R.apply_switches(R.live,(int)plan["switch_order"].as_int(0)); });
+        if(!sw_first) lib_call([&]{ R.apply_switches(R.live,(int)plan["switch_order"].as_int(0)); }); else ctr.add("probe_switches_set_before_ini");
         R.shp((long)R.nx*1000+R.nsun*100+R.nrhos*10+R.nsc);
         const Json& ops=plan["ops"];
         for(size_t i=0;i<ops.size()&&i<64&&out.ok;i++){ R.c.opi=(int)i; R.run_op(ops[i]); }
